@@ -98,6 +98,14 @@ Theorem C03_calls_once :
 Proof. exact find_roots_log_spec. Qed.
 Print Assumptions C03_calls_once.
 
+(* The extracted runner executes the loop with the depth arithmetic re-read from findRoots by
+   the translator (start depth, stop condition, pushed depth); it is the proved loop. *)
+Theorem C03_runner_is_model :
+  forall (fuel : nat) (s : source) (fs : list filter) (limit : Z) (node : desc),
+    find_roots_run fuel (find_preds s fs) limit node = find_roots_log fuel s fs limit node.
+Proof. exact find_roots_run_eq. Qed.
+Print Assumptions C03_runner_is_model.
+
 (* Failing source operations (Predecessors / Referrers / the Fetch of a missing field), any
    position k of the armed fault: when findRoots nevertheless succeeds, its result is the
    fault-free one -- no error is swallowed into a partial predecessor list or root set; so
